@@ -146,6 +146,15 @@ theorem optimizer_traversal_as_modelled :
     ∧ Gen.ExprTables.visitorWalkCalls = (6, 6)
     ∧ Gen.ExprTables.optimizeconstPassesCtx = true := by decide
 
+/-- Only values of exactly the builtin literal types are written back into generated code as their `repr`
+    (`has_safe_repr` tests `type(value)`, never `isinstance`): a subclass instance — the `_GroupTuple` of `groupby`, a
+    `str` subclass — is never folded into a constant that would rebuild as the base type. -/
+theorem safe_repr_is_exact_type_test :
+    Gen.ExprTables.safeReprLooseTests = []
+    ∧ Gen.ExprTables.safeReprExactTypes =
+        [["Markup", "bool", "complex", "float", "int", "range", "str"], ["frozenset", "list", "set", "tuple"], ["dict"]] := by
+  decide
+
 theorem compiled_is_reference (hc : C08.Coherent c ae) (optimized : Bool) (e : Expr) :
     compileRender Gen.ExprTables.guards Gen.ExprTables.tables c optimized ae ctx e = renderExpr c ae ctx e := by
   rw [guards_present]
